@@ -604,6 +604,33 @@ fn wrong_sk(text: &str) -> PlainSessionKey {
     }
 }
 
+/// other session keys that are NOT the message's: a strict prefix (half, all but one octet), the empty
+/// key, the key extended by one octet, the last octet changed — equality of session keys must be
+/// equality of the whole octet string
+fn wrong_sk_variants(text: &str) -> Vec<PlainSessionKey> {
+    let base = parse_sk(text);
+    let raw: Vec<u8> = match &base {
+        PlainSessionKey::V3_4 { key, .. } | PlainSessionKey::V5 { key } | PlainSessionKey::V6 { key } => key.as_ref().to_vec(),
+    };
+    let mut outs: Vec<Vec<u8>> = vec![raw[..raw.len() / 2].to_vec(), raw[..raw.len().saturating_sub(1)].to_vec(), vec![]];
+    let mut ext = raw.clone();
+    ext.push(0);
+    outs.push(ext);
+    let mut last = raw.clone();
+    if let Some(b) = last.last_mut() {
+        *b ^= 0x10;
+    }
+    outs.push(last);
+    outs.retain(|k| *k != raw);
+    outs.into_iter()
+        .map(|k| match &base {
+            PlainSessionKey::V3_4 { sym_alg, .. } => PlainSessionKey::V3_4 { sym_alg: *sym_alg, key: k.into() },
+            PlainSessionKey::V5 { .. } => PlainSessionKey::V5 { key: k.into() },
+            PlainSessionKey::V6 { .. } => PlainSessionKey::V6 { key: k.into() },
+        })
+        .collect()
+}
+
 /// Input class marker (appended to oracle inputs, ignored by the model): some presented message password
 /// "opens" a v4 SKESK of this library-written message to something that is not the message's session key —
 /// the SKESK v4 plausibility check let garbage through (known finding D18b). Measured with the public
@@ -1044,6 +1071,9 @@ fn crosscheck_oracle(ctx: &mut Ctx, w: &World, a: &Assembled) {
     // explicit session keys: the one the data opens under (tagged 200) and a wrong one (201)
     secrets.push((Sec::Sk(parse_sk(&a.msg.ed), 200), vec![200]));
     secrets.push((Sec::Sk(wrong_sk(&a.msg.ed), 201), vec![201]));
+    for (i, k) in wrong_sk_variants(&a.msg.ed).into_iter().enumerate() {
+        secrets.push((Sec::Sk(k, 202 + i), vec![202 + i]));
+    }
     secrets.sort_by_key(|s| match &s.0 { Sec::Key(k) => *k, Sec::Pw(p) => 50 + *p, Sec::Sk(_, t) => *t });
     // the data key's tag, so that "same key" is recognised across kinds
     let ed_tag: Option<usize> = None;
@@ -1060,7 +1090,7 @@ fn crosscheck_oracle(ctx: &mut Ctx, w: &World, a: &Assembled) {
             let differ = match (y1.first(), y2.first()) {
                 (Some(&a1), Some(&b1)) => {
                     let known = |x: usize| x != 200;
-                    (known(a1) && known(b1) && y1.iter().any(|x| y2.iter().any(|y| x != y))) || (a1 == 200 && b1 == 201) || (a1 == 201 && b1 == 200)
+                    (known(a1) && known(b1) && y1.iter().any(|x| y2.iter().any(|y| x != y))) || (a1 == 200 && b1 >= 201) || (a1 >= 201 && b1 == 200)
                 }
                 _ => false,
             };
@@ -1113,6 +1143,8 @@ fn exhaustive_rings(ctx: &mut Ctx, w: &World, m: &Msg, keys: &[usize], mpws: &[u
         vec![wrong_sk(&m.ed)],
         vec![parse_sk(&m.ed), wrong_sk(&m.ed)],
         vec![wrong_sk(&m.ed), parse_sk(&m.ed)],
+        [vec![parse_sk(&m.ed)], wrong_sk_variants(&m.ed).into_iter().take(1).collect()].concat(),
+        [wrong_sk_variants(&m.ed).into_iter().skip(2).take(1).collect(), vec![parse_sk(&m.ed)]].concat(),
     ];
     let mut n = 0usize;
     for ks in sequences(keys, max_keys) {
